@@ -1,7 +1,7 @@
 (* C15 — relay dialing, happy eyeballs.
    Executable model (definitions only) of
-     dial_happy_eyeballs   iroh-relay/src/client/tls.rs:246-351
-     pop_family            iroh-relay/src/client/tls.rs:372-380
+     dial_happy_eyeballs   iroh-relay/src/client/tls.rs:246-353
+     pop_family            iroh-relay/src/client/tls.rs:367-378
      resolve_host_all      iroh-dns/src/dns.rs:504-595   (+ Inner::op timeout, dns.rs:311-337)
    as a timed deterministic simulator.  Time is in nanoseconds (the unit in
    which Gen/Consts.v holds the Durations); the harness writes milliseconds
@@ -34,7 +34,7 @@ Definition outcome_eqb (x y : outcome) : bool :=
 Definition addr_eqb (a b : addr) : bool :=
   Bool.eqb (v6 a) (v6 b) && N.eqb (aid a) (aid b) && outcome_eqb (oc a) (oc b).
 
-(* tls.rs:287-291: time::timeout(DIAL_ENDPOINT_TIMEOUT, TcpStream::connect(addr)), errors mapped.
+(* tls.rs:289-293: time::timeout(DIAL_ENDPOINT_TIMEOUT, TcpStream::connect(addr)), errors mapped.
    Attempt started at s: (completion time, None = connected | Some error code);
    code 2 = DialError::Io, 3 = DialError::Timeout.  tokio's Timeout polls the inner
    future first, so a completion exactly at the deadline wins. *)
@@ -101,8 +101,10 @@ Record st := mkSt {
   log : list (N * addr)           (* (ghost) attempts started so far, newest first *)
 }.
 
-(* pop_family, tls.rs:372-380: first queued address of the wanted family, else index 0;
-   the wanted family becomes the other family of the address taken. *)
+(* pop_family, tls.rs:367-378: first queued address of the wanted family, else index 0;
+   the wanted family becomes the other family than that of the address taken
+   (`*next_is_v6 = !addr.is_ipv6()`; before the fix recorded in notes/C15.md the flag was
+   flipped, `!*next_is_v6`, which repeats a family after a fall-back). *)
 Fixpoint find_fam (w : bool) (q : list addr) : option (addr * list addr) :=
   match q with
   | [] => None
@@ -119,12 +121,12 @@ Definition pop_family (q : list addr) (w : bool) : option (addr * list addr * bo
   | [] => None
   | a0 :: q0 =>
       match find_fam w q with
-      | Some (a, r) => Some (a, r, negb w)
-      | None => Some (a0, q0, negb w)
+      | Some (a, r) => Some (a, r, negb (v6 a))
+      | None => Some (a0, q0, negb (v6 a0))
       end
   end.
 
-(* tls.rs:280-302: if the timer is unset and an address is queued, start an attempt. *)
+(* tls.rs:280-304: if the timer is unset and an address is queued, start an attempt. *)
 Definition top (s : st) : st :=
   match timer s with
   | Some _ => s
@@ -158,7 +160,7 @@ Definition le_opt (a b : option N) : bool :=
   | None, _ => false
   end.
 
-(* arm 1, tls.rs:309-318 *)
+(* arm 1, tls.rs:311-320 *)
 Definition on_dial (s : st) (t : N) (d : dial) (r : list dial) : stepres :=
   match dres d with
   | None =>
@@ -169,7 +171,7 @@ Definition on_dial (s : st) (t : N) (d : dial) (r : list dial) : stepres :=
                  (match r with [] => None | _ :: _ => timer s end) (log s))
   end.
 
-(* arm 2, tls.rs:320-346 *)
+(* arm 2, tls.rs:322-348 *)
 Definition on_stream (p : bool) (s : st) (t : N) : stepres :=
   match rest s with
   | [] =>
@@ -186,11 +188,11 @@ Definition on_stream (p : bool) (s : st) (t : N) : stepres :=
                  (timer s) (log s))
   end.
 
-(* arm 3, tls.rs:348 *)
+(* arm 3, tls.rs:350 *)
 Definition on_timer (s : st) (t : N) : stepres :=
   Next (mkSt t (rest s) (fin s) (queue s) (want6 s) (dials s) (started s) (lerr s) None (log s)).
 
-(* tls.rs:306-349: biased select over the three guarded arms.  The arm whose event is
+(* tls.rs:308-351: biased select over the three guarded arms.  The arm whose event is
    earliest fires; at the same instant the source order decides. *)
 Definition select (sc : scenario) (s : st) : stepres :=
   let od := pick_min (dials s) in
@@ -208,7 +210,7 @@ Definition select (sc : scenario) (s : st) : stepres :=
   else
     match tt with Some t => on_timer s t | None => Stuck s end.
 
-(* One iteration of the loop, tls.rs:272-350. *)
+(* One iteration of the loop, tls.rs:272-352. *)
 Definition exhausted (s : st) : bool :=
   fin s && match queue s with [] => true | _ => false end
         && match dials s with [] => true | _ => false end.
@@ -221,14 +223,14 @@ Definition step (sc : scenario) (s : st) : stepres :=
 Definition init (sc : scenario) : st :=
   mkSt 0 (items sc) false [] (pref sc) [] false None None [].
 
-(* Err 99 = wedged (what the harness' watchdog reports), None = out of fuel. *)
+(* Panic = wedged (the harness reports its watchdog firing the same way), None = out of fuel. *)
 Fixpoint run (fuel : nat) (sc : scenario) (s : st) : option (res addr * st) :=
   match fuel with
   | O => None
   | S f =>
       match step sc s with
       | Done r s' => Some (r, s')
-      | Stuck s' => Some (Err 99, s')
+      | Stuck s' => Some (Panic, s')
       | Next s' => run f sc s'
       end
   end.
@@ -238,7 +240,7 @@ Definition fuel_of (sc : scenario) : nat := 3 * length (items sc) + 3.
 Definition run_sc (sc : scenario) : res addr * st :=
   match run (fuel_of sc) sc (init sc) with
   | Some x => x
-  | None => (Err 97, init sc)
+  | None => (Panic, init sc)
   end.
 
 (* ------------------------------------------------------------------ interface *)
@@ -333,7 +335,6 @@ Definition result_ok (ads lg : list (N * addr)) (te : N) (r : res addr) (e : N) 
       existsb (fun x => addr_eqb (snd x) a && succ (snd x) && N.eqb (dend_at (fst x) (snd x)) e) lg &&
       forallb (fun x => negb (succ (snd x)) || (e <=? dend_at (fst x) (snd x))) lg
   | Err c =>
-      negb (N.eqb c 97) && negb (N.eqb c 98) && negb (N.eqb c 99) &&
       (* every resolved address was attempted *)
       forallb (fun x => existsb (fun y => addr_eqb (snd x) (snd y)) lg) ads &&
       Nat.eqb (length lg) (length ads) &&
